@@ -136,7 +136,7 @@ def validateEuid (s : Schema) (u : EntityUID) : Except EntityViolation Unit :=
 /-- `validate_euids_in_subexpressions` -/
 def validateEuids (s : Schema) : List EntityUID → Except EntityViolation Unit
   | [] => .ok ()
-  | u :: us => do validateEuid s u; validateEuids s us
+  | u :: us => validateEuid s u >>= fun _ => validateEuids s us
 
 /-! ## entities -/
 
@@ -146,14 +146,18 @@ def checkAttrValue (τ : CedarType) (v : Value) : Except EntityViolation Unit :=
   | none => .error .panic
   | some σ => if checkValue v σ then .ok () else .error .typeMismatch
 
+/-- body of the second loop of `validate_entity_attributes`: undeclared attribute, or type of a declared one -/
+def checkOneAttr (et : EntityTypeEntry) (k : String) (v : Value) : Except EntityViolation Unit :=
+  match Attrs.find? et.attrs k with
+  | none => if et.isOpen then .ok () else .error .unexpectedAttr
+  | some (_, τ) => checkAttrValue τ v
+
 /-- second loop of `validate_entity_attributes` -/
 def validateAttrs (s : Schema) (et : EntityTypeEntry) : List (String × Value) → Except EntityViolation Unit
   | [] => .ok ()
-  | (k, v) :: rest => do
-    match Attrs.find? et.attrs k with
-    | none => if !et.isOpen then .error .unexpectedAttr else .ok ()
-    | some (_, τ) => checkAttrValue τ v
-    validateEuids s v.euids
+  | (k, v) :: rest =>
+    checkOneAttr et k v >>= fun _ =>
+    validateEuids s v.euids >>= fun _ =>
     validateAttrs s et rest
 
 /-- `validate_entity_attributes` -/
@@ -162,31 +166,37 @@ def validateEntityAttributes (s : Schema) (et : EntityTypeEntry) (attrs : List (
   if et.requiredAttrs.all (fun a => attrs.any (fun kv => kv.1 == a)) then validateAttrs s et attrs
   else .error .missingAttr
 
+def checkAncestorType (s : Schema) (ty : EntityType) (a : EntityUID) : Except EntityViolation Unit :=
+  if (s.allowedParentTypes ty).contains a.ty then .ok () else .error .ancestorType
+
 /-- `validate_entity_ancestors` -/
 def validateAncestors (s : Schema) (ty : EntityType) : List EntityUID → Except EntityViolation Unit
   | [] => .ok ()
-  | a :: rest => do
-    validateEuid s a
-    if (s.allowedParentTypes ty).contains a.ty then .ok () else .error .ancestorType
+  | a :: rest =>
+    validateEuid s a >>= fun _ =>
+    checkAncestorType s ty a >>= fun _ =>
     validateAncestors s ty rest
 
 def checkTagValues (τ : CedarType) : List (String × Value) → Except EntityViolation Unit
   | [] => .ok ()
-  | (_, v) :: rest => do checkAttrValue τ v; checkTagValues τ rest
+  | (_, v) :: rest => checkAttrValue τ v >>= fun _ => checkTagValues τ rest
 
 def validateTagEuids (s : Schema) : List (String × Value) → Except EntityViolation Unit
   | [] => .ok ()
-  | (_, v) :: rest => do validateEuids s v.euids; validateTagEuids s rest
+  | (_, v) :: rest => validateEuids s v.euids >>= fun _ => validateTagEuids s rest
 
-/-- `validate_tags` (`tag_type()` converts the type — and may panic — before any tag is looked at) -/
-def validateTags (s : Schema) (et : EntityTypeEntry) (tags : List (String × Value)) : Except EntityViolation Unit := do
+/-- first half of `validate_tags` (`tag_type()` converts the type — and may panic — before any tag is looked at) -/
+def checkTagTypes (et : EntityTypeEntry) (tags : List (String × Value)) : Except EntityViolation Unit :=
   match et.tags with
   | none => if tags.isEmpty then .ok () else .error .unexpectedTag
   | some τ =>
     match τ.toSchemaType? with
     | none => .error .panic
     | some _ => checkTagValues τ tags
-  validateTagEuids s tags
+
+/-- `validate_tags` -/
+def validateTags (s : Schema) (et : EntityTypeEntry) (tags : List (String × Value)) : Except EntityViolation Unit :=
+  checkTagTypes et tags >>= fun _ => validateTagEuids s tags
 
 /-- ancestor sets are compared as sets (`deep_eq`) -/
 def sameUidSet (a b : List EntityUID) : Bool :=
@@ -205,10 +215,10 @@ def checkEntity (s : Schema) (uid : EntityUID) (d : EntityData) : Except EntityV
   if isActionType uid.ty then validateAction s uid d
   else match s.entityType? uid.ty with
     | none => .error .unexpectedType
-    | some et => do
-      validateEuid s uid
-      validateEntityAttributes s et d.attrs
-      validateAncestors s uid.ty d.ancestors
+    | some et =>
+      validateEuid s uid >>= fun _ =>
+      validateEntityAttributes s et d.attrs >>= fun _ =>
+      validateAncestors s uid.ty d.ancestors >>= fun _ =>
       validateTags s et d.tags
 
 /-! ## requests -/
@@ -222,27 +232,34 @@ def liftEuid : Except EntityViolation Unit → Except RequestViolation Unit
 def checkContext (s : Schema) (action : EntityUID) (ctx : List (String × Value)) : Except RequestViolation Unit :=
   match s.action? action with
   | none => .error .undeclaredAction
-  | some a => do
-    liftEuid (validateEuids s (Value.euids (.record ctx)))
+  | some a =>
+    liftEuid (validateEuids s (Value.euids (.record ctx))) >>= fun _ =>
     if typecheckValue (.record ctx) a.context then .ok () else .error .context
 
-/-- `validate_scope_variables` (all three present) -/
-def checkScope (s : Schema) (p a r : EntityUID) : Except RequestViolation Unit := do
-  match s.entityType? p.ty with
-  | some _ => if validEnumId s p then .ok () else .error .enumId
-  | none => .error .undeclaredPrincipalType
-  match s.entityType? r.ty with
-  | some _ => if validEnumId s r then .ok () else .error .enumId
-  | none => .error .undeclaredResourceType
+/-- principal / resource half of `validate_scope_variables`: declared type, valid enumerated id -/
+def checkScopeEntity (s : Schema) (u : EntityUID) (undeclared : RequestViolation) : Except RequestViolation Unit :=
+  match s.entityType? u.ty with
+  | some _ => if validEnumId s u then .ok () else .error .enumId
+  | none => .error undeclared
+
+/-- action half of `validate_scope_variables`: declared, and applicable to the principal and resource types -/
+def checkApplies (s : Schema) (p a r : EntityUID) : Except RequestViolation Unit :=
   match s.action? a with
   | none => .error .undeclaredAction
-  | some act => do
-    if act.principals.contains p.ty then .ok () else .error .principalType
-    if act.resources.contains r.ty then .ok () else .error .resourceType
+  | some act =>
+    if act.principals.contains p.ty then
+      (if act.resources.contains r.ty then .ok () else .error .resourceType)
+    else .error .principalType
+
+/-- `validate_scope_variables` (all three present) -/
+def checkScope (s : Schema) (p a r : EntityUID) : Except RequestViolation Unit :=
+  checkScopeEntity s p .undeclaredPrincipalType >>= fun _ =>
+  checkScopeEntity s r .undeclaredResourceType >>= fun _ =>
+  checkApplies s p a r
 
 /-- `validate_request` -/
-def checkRequest (s : Schema) (q : Request) : Except RequestViolation Unit := do
-  checkScope s q.principal q.action q.resource
+def checkRequest (s : Schema) (q : Request) : Except RequestViolation Unit :=
+  checkScope s q.principal q.action q.resource >>= fun _ =>
   checkContext s q.action q.context
 
 /-! ## declarative specification -/
